@@ -335,6 +335,9 @@ func mfRunDescCase(c mfCase) mfLine {
 	if c.Format == "pool" {
 		return mfRunPoolCase(c)
 	}
+	if c.Format == "cfg" {
+		return mfRunCfgCase(c)
+	}
 	name, text, files := mfRenderDesc(c)
 	evs, info := mfDescPipeline(c.Format, name, text, files)
 	return mfLine{K: "case", C: &c, Evs: evs, Info: info}
